@@ -51,6 +51,19 @@ def toOuter (sizes : List Nat) (dim : Nat) (powellsPos : Pos) (inner : Pos) : Ex
       if k = dim then (if 0 ≤ x ∧ x < (sizes.getD k 0 : Int) then .ok x else .error .indexError)
       else if x = 0 then .ok (powellsPos.getD k 0) else .error .indexError)
 
+/-- the position the next line search passes through: the best valid position, or (after fix) the current position while no
+    finite score has been seen -/
+def powBest (s : PowSt) (perm : List Nat) : Except Err Pos :=
+  match perm.head? with
+  | none =>
+    match s.tr.posCurrent with
+    | some pp => .ok pp
+    | none => .error (.other "TypeError")          -- `None[idx]`
+  | some i0 =>
+    match s.tr.positionsValid[i0]? with
+    | some (some pp) => .ok pp
+    | _ => .error .indexError
+
 /-- `new_dim()` -/
 def powNewDim (cfg : PowCfg) (s : PowSt) : Except Err PowSt :=
   let nd := cfg.sizes.length
@@ -59,17 +72,14 @@ def powNewDim (cfg : PowCfg) (s : PowSt) : Except Err PowSt :=
   | .sorted perm :: rest0 =>
     if ¬ sortedDesc s.tr.scoresValid perm then .error (protocol "sort_list_idx-not-descending")
     else
-      match perm.head? with
-      | none => .error .indexError                  -- `[…][0]` of an empty list: no valid score yet
-      | some i0 =>
-        match s.tr.positionsValid[i0]? with
-        | some (some pp) =>
-          match rest0 with
-          | .inits l :: rest =>
-            .ok { s with curDim := dim, powellsPos := pp, nthIterCurDim := 0, hc := some { initL := l }, tape := rest }
-          | [] => .error .needMore
-          | _ => .error (protocol "new_dim-inner-optimizer")
-        | _ => .error .indexError
+      match powBest s perm with
+      | .error e => .error e
+      | .ok pp =>
+        match rest0 with
+        | .inits l :: rest =>
+          .ok { s with curDim := dim, powellsPos := pp, nthIterCurDim := 0, hc := some { initL := l }, tape := rest }
+        | [] => .error .needMore
+        | _ => .error (protocol "new_dim-inner-optimizer")
   | [] => .error .needMore
   | _ => .error (protocol "new_dim")
 
